@@ -93,7 +93,9 @@ CTS = [('application', 'octet-stream', {}), ('text', 'plain', {'charset': 'utf8'
        ('text', 'x-traceback', {'charset': 'utf8', 'language': 'python'}),
        # parameter values that need quoting / escaping in the MIME rendering (inside C16's round-trip domain)
        ('application', 'x-quoted', {'title': 'the "big" log'}), ('application', 'x-backslash', {'k': 'a\\b\\'}),
-       ('application', 'x-seps', {'k': '; , = /', 'l': ''}), ('text', 'plain', {'charset': 'utf8', 'note': '\u00e9 \u4e2d'})]
+       ('application', 'x-seps', {'k': '; , = /', 'l': ''}), ('text', 'plain', {'charset': 'utf8', 'note': '\u00e9 \u4e2d'}),
+       # a comma inside a parameter that is not the charset, with and without a charset next to it
+       ('text', 'csv', {'charset': 'utf8', 'columns': 'id,name,size'}), ('application', 'x-log', {'fields': 'time,level,msg'})]
 
 
 def test_id(n):
